@@ -111,6 +111,11 @@ def cli(ctx, shape, recursive, linear):
     from fggs import formats
     from . import o_server
     jshape = json.loads(json.dumps(shape))
+    # weights that are NOT exactly representable in float32 (0.1, 0.3, 0.7 ...): `-d` must really compute in double precision
+    # (the in-process reference below does), which dyadic weights cannot tell apart from single precision
+    wkey = 'weights'
+    jshape[wkey] = {k: [w * ctx.rng.choice([0.1, 0.3, 0.7, 1.1]) if w not in (0.0,) and w == w and abs(w) != math.inf else w for w in ws]
+                    for k, ws in jshape[wkey].items()}
     method = ctx.rng.choice(['fixed-point', 'newton'] + (['linear'] if linear else []))
     jp = ctx.rng.random() < 0.3
     try:
@@ -122,7 +127,7 @@ def cli(ctx, shape, recursive, linear):
     fgg, info = semgen.build(o_server.fix(json.loads(json.dumps(jshape))), 'real', torch.float64)
     j = formats.fgg_to_json(fgg)
     names = [el.name for el in info['TL']]
-    case = dict(shape=shape, cli=dict(method=method, j_precompute=jp))
+    case = dict(shape=jshape, cli=dict(method=method, j_precompute=jp))
     for variant in ('file', 'w-option'):
         jj = json.loads(json.dumps(j))
         extra = []
